@@ -143,6 +143,7 @@ type Case struct {
 	Loader  string   `json:"loader,omitempty"`
 	Signers []string `json:"signers,omitempty"`
 	Before  string   `json:"dumped_before,omitempty"`
+	Reuse   string   `json:"loaded_before_into_same_value,omitempty"` // Metablock.Load only: the value held this other (signed) element before
 	Corr    string   `json:"corruption,omitempty"`
 	Viol    string   `json:"violation,omitempty"`
 }
@@ -168,8 +169,26 @@ func roundTrip(c *mcx.Ctx, cs Case) (obs, sig string) {
 		return "dump: " + err.Error(), "C12|round-trip|" + wr(cs.DSSE) + "|cannot-write"
 	}
 	c.Impl(2)
-	back, err := load(path, cs.Loader)
+	var back intoto.Metadata
+	if cs.Reuse != "" {
+		// the deprecated loader fills a caller-supplied value: what the value held before must not show afterwards
+		other := filepath.Join(c.Work, "rt-other.json")
+		if err := writeSigned(other, cs.Reuse, false, []string{"ed2", "p256"}); err != nil {
+			return "setup: " + err.Error(), ""
+		}
+		mb := &intoto.Metablock{}
+		if err := mb.Load(other); err != nil {
+			return "setup load: " + err.Error(), ""
+		}
+		err = mb.Load(path)
+		back = mb
+	} else {
+		back, err = load(path, cs.Loader)
+	}
 	tag := fmt.Sprintf("%s|signatures=%d", wr(cs.DSSE), len(cs.Signers))
+	if cs.Reuse != "" {
+		tag += "|into-a-value-that-held-another-element"
+	}
 	if cs.Before != "" {
 		tag += "|over-existing-file"
 	}
@@ -190,6 +209,23 @@ func roundTrip(c *mcx.Ctx, cs Case) (obs, sig string) {
 		if err := back.VerifySignature(gen.Key(s).Pub); err != nil {
 			return "signature of " + s + " after load: " + err.Error(), "C12|round-trip|signature-invalid-after-load|" + tag
 		}
+	}
+	// what was loaded is itself written by the library: it loads back again, to the same
+	path2 := filepath.Join(c.Work, "rt2.json")
+	os.Remove(path2)
+	if err := back.Dump(path2); err != nil {
+		return "second dump: " + err.Error(), "C12|round-trip|loaded-value-cannot-be-written|" + tag
+	}
+	again, err := load(path2, cs.Loader)
+	c.Impl(2)
+	if err != nil {
+		return "the loaded value, written again: " + cs.Loader + ": " + err.Error(), "C12|round-trip|loaded-value-written-again-is-refused|" + tag
+	}
+	if !reflect.DeepEqual(norm(refschema.Tree(again.GetPayload())), norm(refschema.Tree(content(cs.Content)))) {
+		return "payload differs after the second load", "C12|round-trip|payload-differs-after-second-round|" + tag
+	}
+	if gen.JSON(again.Sigs()) != gen.JSON(md.Sigs()) && !(len(again.Sigs()) == 0 && len(md.Sigs()) == 0) {
+		return fmt.Sprintf("signatures differ after the second round: %s vs %s", gen.JSON(again.Sigs()), gen.JSON(md.Sigs())), "C12|round-trip|signatures-differ-after-second-round|" + tag
 	}
 	return "ok", ""
 }
@@ -776,6 +812,11 @@ func enumerate(c *mcx.Ctx, emit func(Case)) {
 				}
 				for _, before := range catalogueNames {
 					emit(Case{Part: "round-trip", Content: name, DSSE: dsse, Loader: ld, Signers: []string{"ed1"}, Before: before})
+					if ld == "Metablock.Load" {
+						for _, s := range signerSets {
+							emit(Case{Part: "round-trip", Content: name, DSSE: dsse, Loader: ld, Signers: s, Reuse: before})
+						}
+					}
 				}
 			}
 			if name == "link-full" || name == "layout-full" || (c.Thorough() && name != "link-nasty") {
